@@ -160,7 +160,8 @@ class World:
             net = self.A if key[0] == "m" else self.B
             subs = tuple(sorted((cid, sum(1 for c in cbs if getattr(c, "__self__", None) is m))
                                 for cid, cbs in net.subscribers.items() if any(getattr(c, "__self__", None) is m for c in cbs)))
-            out.append((key, bytes(m.data), m.cob_id, m.enabled, m.rtr_allowed, subs, len(m.callbacks), m.timestamp is None))
+            out.append((key, subs, len(m.callbacks), m.timestamp is None, m.period is None, m._task is None,
+                        kernel.scalar_state(m, exclude=("timestamp", "period"))))
         return tuple(out)
 
     # --- delivery of one frame to the reference
